@@ -124,3 +124,99 @@ class SessionCheck(BaseCheck):
             if vm < 1:
                 vm = None
         return shrink.minimise_session(payload, test, violation['fingerprint'], vm, budget_s)
+
+
+class MixedCheck(SessionCheck):
+    """operation runs (seeded scheduler instead of the matching engine) + session runs, same monitors"""
+
+    def __init__(self, *a, ops_profile=None, ops_tiers=None, ops_nontrivial=None, **kw):
+        super().__init__(*a, **kw)
+        self.ops_profile = ops_profile or {}
+        self.ops_tiers = ops_tiers or {'quick': 0, 'thorough': 0}
+        self._ops_nontrivial = ops_nontrivial
+
+    def args_for(self, tier, verif_seed, runs=None):
+        out = super().args_for(tier, verif_seed, runs)
+        n_ops = self.ops_tiers[tier] if runs is None else runs
+        base = 10_000_000
+        out += [{'k': base + k, 'seed': run_seed(self.prop + '/ops', verif_seed, k), 'mode': 'ops'} for k in range(n_ops)]
+        return out
+
+    def ops_profile_for(self, seed):
+        pf = self.ops_profile
+        if callable(pf):
+            return pf(Stream(seed, 'oprofile'))
+        return pf
+
+    def _ops_result(self, c, m, status, spec):
+        from . import opmachine as OM
+        if status == 'exception':
+            info = c.scratch.get('op_exception') or {}
+            tb = info.get('tb', '')
+            where = '?'
+            for line in tb.splitlines():
+                if 'File "' in line and '/jesse/' in line and '/simlab/' not in line:
+                    where = line.strip().rsplit('/', 1)[-1].split('"')[0] + ':' + line.strip().rsplit(' in ', 1)[-1]
+            c.violate(self.prop, 'operation-raised',
+                      f"{self.prop}|operation-raised|{info.get('type')}|{where}|op={(info.get('op') or {}).get('op')}",
+                      {'exc': info.get('exc'), 'tb': tb, 'op': info.get('op')})
+        vs = [v for v in c.violations if v['property'] == self.prop]
+        res = {
+            'seed': spec['seed'], 'status': status, 'violations': R.jsonable(vs),
+            'other_props': sorted({v['property'] for v in c.violations if v['property'] != self.prop}),
+            'counters': dict(c.counters), 'minutes': 0, 'ops': len(m.done_ops),
+            'sig': R.trace_signature(c.trace) + '/' + '.'.join(o['op'][:2] for o in m.done_ops)[:80],
+            'digest': C.digest_trace(c.trace), 'events': len(c.trace),
+        }
+        res['nontrivial'] = bool(self._ops_nontrivial(res)) if self._ops_nontrivial else len(m.done_ops) >= 3
+        if vs:
+            sp = {k: v for k, v in spec.items()}
+            res['replay'] = {'kind': 'ops', 'spec': R.jsonable(sp), 'ops': R.jsonable(m.done_ops)}
+        return res
+
+    def run_one(self, arg):
+        if arg.get('mode') != 'ops':
+            return super().run_one(arg)
+        from . import opmachine as OM
+        spec = OM.gen_op_spec(arg['seed'], self.ops_profile_for(arg['seed']))
+        c, m, status = OM.execute_ops(spec, self.monitors())
+        res = self._ops_result(c, m, status, spec)
+        res['k'] = arg['k']
+        if arg.get('want_sample'):
+            res['sample'] = {'kind': 'ops', 'spec': {k: spec[k] for k in ('type', 'leverage', 'fee', 'balance', 'n_ops')},
+                             'ops': R.jsonable(m.done_ops[:15]), 'status': status}
+        return res
+
+    def replay(self, payload):
+        if payload.get('kind') != 'ops':
+            return super().replay(payload)
+        from . import opmachine as OM
+        spec = copy.deepcopy(payload['spec'])
+        for r in spec['routes']:
+            ed = r['program'].get('exit_dist')
+            if isinstance(ed, list):
+                r['program']['exit_dist'] = tuple(ed)
+        c, m, status = OM.execute_ops(spec, self.monitors(), ops=payload['ops'])
+        return self._ops_result(c, m, status, spec)
+
+    def minimise(self, payload, test, violation, budget_s):
+        if payload.get('kind') != 'ops':
+            return super().minimise(payload, test, violation, budget_s)
+        import time
+        from . import shrink
+        fp = violation['fingerprint']
+        deadline = time.monotonic() + budget_s
+
+        def fails(ops):
+            p = dict(payload)
+            p['ops'] = ops
+            try:
+                r = test(p)
+            except Exception:
+                return False
+            return any(v['fingerprint'] == fp for v in r.get('violations', []))
+        ops = shrink.ddmin_list(payload['ops'], fails, deadline)
+        out = dict(payload)
+        out['ops'] = ops
+        out['minimised'] = [f"ops {len(payload['ops'])}->{len(ops)}"]
+        return out
